@@ -399,6 +399,7 @@ class Engine:
             q.schemas.extend(l.constraint(lambda *a, cur=cur: cur.read(*a), lambda *a, old=old: old.read(*a), q.st))
         for fct in o.facts:
             q.assume(fct)
+        q.schemas.extend(o.fact_schemas)
 
     def lemma_preserve(self, qualname: str, assume, prove, tag: str):
         """contract-level lemma (no code): every outcome of `qualname`'s contract, started in a state satisfying the
@@ -517,6 +518,10 @@ class Engine:
             # spec-level ghosts are identified with the ghost locals the loop invariants define ($name)
             for (gname, gconst) in getattr(spec, "ghosts", ()):
                 gv = q.env.get("$" + gname)
+                if gname == "$result":
+                    gv = value                  # the contract describes the result by facts, not by a term
+                if gv is None:
+                    gv = q.env.get(gname)       # a ghost may simply name a local of the body
                 if gv is not None and hasattr(gv, "term"):
                     subst = subst + [(gconst, gv.term)]
             if o.exc is None and not any_exit:
@@ -527,6 +532,9 @@ class Engine:
                     self.emit(q, "post", f"{tag}/{olabel}/yielded", T.eq(q.out, S_(o.out)), meta={"clause": "yielded sequence"})
             for fct in o.facts:
                 self.emit(q, "post", f"{tag}/{olabel}/fact", S_(fct), meta={"clause": "result fact"})
+            for sch in o.fact_schemas:
+                sk = tuple(T.fresh("sk", s_) for s_ in sch.sorts)
+                self.emit(q, "post", f"{tag}/{olabel}/fact:{sch.name}", S_(sch.fn(*sk)), meta={"clause": f"result fact {sch.name}"})
             # state: every field that either side touched, at a skolem address
             loose_names = {l.fieldname for l in o.loose}
             garbage = [r for (r, _c, k) in q.allocs if k == "container" and not any(r.eq(b) for (_a, b) in subst)]
